@@ -292,6 +292,7 @@ func runC01(c *Ctx) {
 			}
 		}
 	}
+	ruleEveryRecordedMethodRouted(c, "R01.2")
 	c.min("R01.2", 12)
 
 	// R01.3
@@ -906,4 +907,53 @@ func ruleCompositeSearchBraced(c *Ctx, rule string) {
 		}
 	}
 	c.obRF(rule, lk, "locates-parameter-in-template", n >= 1, "Lookup locates each parameter in the route's template", "")
+}
+
+// ruleEveryRecordedMethodRouted (shared by C01 and C19): Build turns the records of EVERY method AddRoute filed into a
+// trie — it ranges over the table of records itself. A fixed list of methods (GET, HEAD, POST …) leaves the operations
+// declared under any other method (OPTIONS, TRACE, a custom one) without a route although their handlers are registered.
+func ruleEveryRecordedMethodRouted(c *Ctx, rule string) {
+	bd := c.P.Fn("(*rt/middleware.defaultRouteBuilder).Build")
+	isRecords := func(v ssa.Value) bool {
+		return vFieldLoad("rt/middleware.defaultRouteBuilder", "records", nil)(v) || vFieldLoadO("rt/middleware.defaultRouteBuilder", "records")(v)
+	}
+	what := "Build ranges over the recorded methods themselves: every method that has records gets its trie"
+	if len(mapLoops(bd, isRecords)) >= 1 {
+		c.obF(rule, bd, "every-recorded-method-routed", true, what, "")
+		return
+	}
+	// the table is looked up under keys taken from somewhere else
+	for _, in := range instrs(bd) {
+		lk, ok := in.(*ssa.Lookup)
+		if !ok || !isRecords(lk.X) {
+			continue
+		}
+		fixed := false
+		for _, o := range originsOf(lk.Index) {
+			if _, isK := o.V.(*ssa.Const); isK {
+				fixed = true
+			}
+			if ad, isLd := derefLoad(o.V); isLd {
+				if ia, isIA := ad.(*ssa.IndexAddr); isIA {
+					for _, o2 := range originsOf(ia.X) {
+						if ad2, isLd2 := derefLoad(o2.V); isLd2 {
+							if _, isG := ad2.(*ssa.Global); isG {
+								fixed = true
+							}
+						}
+						if _, isAl := o2.V.(*ssa.Alloc); isAl {
+							if elems, isLit := sliceLitElems(ia.X); isLit && len(elems) > 0 {
+								fixed = true
+							}
+						}
+					}
+				}
+			}
+		}
+		if fixed {
+			c.obD(rule, lk, "every-recorded-method-routed", false, what, "the records are looked up under a fixed list of methods: records filed under any other method never become a router")
+			return
+		}
+	}
+	c.obRF(rule, bd, "every-recorded-method-routed", false, what, "no loop over the records table found")
 }
